@@ -55,6 +55,9 @@ func KindGraph() []*triple.Triple {
 		T(s, model.PI("kf"), model.OL(model.L(literal.Float64, floats[1]))),
 		T(s, model.PI("kt"), model.OL(model.L(literal.Text, texts[1]))),
 		T(s, model.PI("kn"), model.ON(nodes[1])),
+		// the same INSTANT as subject 1's anchor, written in another zone: a tie on the
+		// anchor whose RFC3339 texts differ, so only later keys may decide
+		T(s, model.PT("t", Anchors()[1].In(time.UTC)), model.ON(NB)),
 	)
 	return ts
 }
